@@ -265,6 +265,29 @@ func runC09(rc *RunCtx) {
 			runtime = T.Chance("rot.runtime", 1, 2)
 		}
 		r0 := rc.S.Seq()
+		if T.Chance("rot.interrupted", 1, 5) {
+			// a storage error at one of the rotation's storage calls; the operator then restarts the mint
+			fee := c09Fees[T.Choose("rot.ifee", len(c09Fees))]
+			k := 1 + T.Choose("rot.ik", 3)
+			rc.Op(fmt.Sprintf("rotate-interrupted(fee=%d, db_error@%d)+restart", fee, k))
+			node := rc.W.Mints["A"]
+			rc.S.BeginEpisode(&FaultPlan{Node: "A", Kind: "db_error", SeamKind: "db", Pos: k})
+			rc.S.Run1(m.name("irot"), node.Inc, func() { node.M.RotateKeyset(uint(fee)) })
+			rc.Quietly(func() {
+				if err := rc.W.RestartMint("A", nil); err != nil {
+					rc.W.Book.Violate("C09.load_fails", "interrupted rotation", "mint does not load after an interrupted rotation: %v", err)
+					return
+				}
+				rc.W.RefreshKeysets("A", fee)
+			})
+			m.keysCacheStale = false
+			rc.S.Probe("c09_interrupted_rotation")
+			rc.W.Book.NoteRotation("A", r0)
+			rotations++
+			view = m.KeysetAudit("A", view, "interrupted rotation")
+			rc.Quietly(func() { m.User.Fund("A", 31+uint64(rotations)) })
+			return
+		}
 		if runtime {
 			// traffic concurrent with the runtime rotation
 			m.StepRotateRuntimeConcurrent()
